@@ -992,3 +992,281 @@ def _mentions_self(t):
     if t == ("param", 0):
         return True
     return any(_mentions_self(x) for x in t if isinstance(x, tuple))
+
+
+# ---------------------------------------------------------------- effects: statement-level writes with their loop nests
+
+class Effect:
+    """A statement-level write: kind in
+         'set'    target[index] = value            (Assign to an Index)
+         'upd'    target[index] op= value          (AssignOp on an Index)
+         'push'   target.push(value)
+         'let'/'assign'/'assignop' on a local or field
+       loops = enclosing For nodes, outermost first; conds = enclosing If nodes with polarity."""
+    __slots__ = ("kind", "node", "target", "index", "value", "op", "loops", "stmt", "tnode", "vnode", "inode")
+
+    def __init__(self, **kw):
+        for k in self.__slots__:
+            setattr(self, k, kw.get(k))
+
+
+def enclosing_loops(n):
+    out = []
+    for a in ancestors(n):
+        if a.get("k") in ("For", "While", "Loop"):
+            out.append(a)
+    out.reverse()
+    return out
+
+
+def effects(pdb, ctx, root=None):
+    out = []
+    root = root if root is not None else ctx.fn["body"]
+    for n in walk(root):
+        if in_macro(n):
+            continue
+        k = n.get("k")
+        if k in ("Assign", "AssignOp"):
+            l = strip(n["l"])
+            lk = l.get("k")
+            kind = None
+            if lk == "Index":
+                kind = "set" if k == "Assign" else "upd"
+                e = Effect(kind=kind, node=n, target=ctx.term(l["base"]), index=ctx.term(l["idx"]), value=ctx.term(n["r"]),
+                           op=n.get("op"), loops=enclosing_loops(n), tnode=l["base"], vnode=n["r"], inode=l["idx"])
+            else:
+                kind = "assign" if k == "Assign" else "assignop"
+                e = Effect(kind=kind, node=n, target=ctx.term(l) if lk != "Local" else ("var", l["v"]) if ctx.term(l)[0] != "param" else ctx.term(l),
+                           index=None, value=ctx.term(n["r"]), op=n.get("op"), loops=enclosing_loops(n), tnode=l, vnode=n["r"])
+            out.append(e)
+        elif k == "MethodCall" and is_push(pdb, n):
+            out.append(Effect(kind="push", node=n, target=ctx.term(n["recv"]), index=None, value=ctx.term(n["args"][0]),
+                              op=None, loops=enclosing_loops(n), tnode=n["recv"], vnode=n["args"][0]))
+    return out
+
+
+_push_cache = {}
+
+
+def is_push(pdb, n):
+    """`x.push(v)` on a Vec, or on a local wrapper whose body is the forwarding call `self.<vec>.push(elem)`."""
+    if n.get("k") != "MethodCall" or len(n.get("args", [])) != 1:
+        return False
+    p = callee_path(n)
+    if p is None:
+        return False
+    if p.startswith("std::vec::Vec<") and p.endswith("::push"):
+        return True
+    fn = pdb.fn(p)
+    if fn is None:
+        return False
+    key = (id(pdb), p)
+    if key not in _push_cache:
+        res = False
+        fw = forwards_to(pdb, fn)
+        if fw is not None:
+            callee, idxs, node = fw
+            if callee and callee.startswith("std::vec::Vec<") and callee.endswith("::push") and idxs[1:] == [1]:
+                res = True
+        _push_cache[key] = res
+    return _push_cache[key]
+
+
+def elem_ref(pdb, ctx, n):
+    """If node n reads/writes one element of a 2-D strided container return (obj_term, row_term, col_term),
+    whether written `m[(r,c)]` or `m.mat[r*cols + c]`; for 1-D containers (obj_term, index_term)."""
+    n = strip(deref(n))
+    if n.get("k") == "MethodCall" and callee_generic(n) in CLONE_FNS:
+        return elem_ref(pdb, ctx, n["recv"])
+    if n.get("k") != "Index":
+        return None
+    reqs = index_requirements(pdb, ctx, n)
+    if len(reqs) == 2:
+        D = reqs[0][1]
+        return (D[1], reqs[0][0], reqs[1][0])
+    if len(reqs) == 1:
+        bt = ctx.term(n["base"])
+        if bt[0] == "field" and bt[2] == "vec":
+            bt = bt[1]
+        return (bt, reqs[0][0])
+    return None
+
+
+def range_of(ctx, fornode):
+    r = for_range(ctx, fornode)
+    return r
+
+
+def loop_var_ranges(ctx, loops):
+    """{var_term: (lo, hi_exclusive, reversed)} for the For loops given."""
+    out = {}
+    for lp in loops:
+        if lp.get("k") != "For":
+            continue
+        r = for_range(ctx, lp)
+        if r is None:
+            continue
+        v, lo, hi, incl, rev = r
+        if incl:
+            hi = lin_add(hi, num(1))
+        out[v] = (lo, hi, rev)
+    return out
+
+
+def same_dim(pdb, ctx, node, a, b):
+    """a and b are the same dimension term modulo equalities known at node (guards + ctor ties)."""
+    if a == b:
+        return True
+    uf, fs = eq_classes(pdb, ctx, node)
+    return uf.same(a, b)
+
+
+# ---------------------------------------------------------------- P / X / R: element-wise operator impls
+
+OP_OF_TRAIT = {"std::ops::Add": "+", "std::ops::Sub": "-", "std::ops::Mul": "*", "std::ops::Div": "/", "std::ops::Neg": "neg",
+               "std::ops::AddAssign": "+", "std::ops::SubAssign": "-", "std::ops::MulAssign": "*", "std::ops::DivAssign": "/"}
+ASSIGN_SYM = {"+=": "+", "-=": "-", "*=": "*", "/=": "/", "+": "+", "-": "-", "*": "*", "/": "/"}
+
+
+def _storage_base(t):
+    """Vector operands are addressed through `.vec`: normalise idx bases to the owning object."""
+    if t[0] == "field" and t[2] == "vec":
+        return t[1]
+    return t
+
+
+def rule_elementwise(rep, pdb, fn, container_param=0, key="elementwise"):
+    """Check one non-forwarding element-wise operator impl: polarity (P), co-indexing (X), full range (R)."""
+    ctx = Ctx.for_fn(pdb, fn)
+    tr = fn.get("impl_trait")
+    want = OP_OF_TRAIT.get(tr)
+    path = fn["path"]
+    where = "%s:%d" % (fn["file"], fn["span"][0])
+    effs = [e for e in effects(pdb, ctx) if e.kind in ("set", "upd", "push") and e.loops]
+    rP = "the element of the result is `self_elem OP rhs_elem` with the trait's operator and the operands in that order"
+    rX = "target and both operands are indexed by the same index term"
+    rR = "the loops cover exactly 0..dim of the container written"
+    if len(effs) != 1:
+        rep.bad("%s-polarity/%s" % (key, path), rP, fn["body"], "expected exactly one element write inside loops, found %d" % len(effs), where=where)
+        return
+    e = effs[0]
+    ranges = loop_var_ranges(ctx, e.loops)
+    # ---- operands
+    v = e.value
+    opsym, a, b = None, None, None
+    if e.kind == "upd":
+        opsym = ASSIGN_SYM.get(e.op)
+        a = ("idx", e.target, e.index)
+        b = v
+    else:
+        if v[0] == "op":
+            opsym, a, b = v[1], v[2], v[3]
+        elif v[0] == "neg":
+            opsym, a = "neg", v[1]
+    selfP, rhsP = P(container_param), P(1 - container_param) if len(fn["params"]) > 1 else None
+
+    def classify(t):
+        """-> ('elem', owner, index) | ('scalar', param) | None"""
+        if t is None:
+            return None
+        if t[0] == "idx":
+            return ("elem", _storage_base(t[1]), t[2])
+        if t[0] == "param":
+            return ("scalar", t)
+        return None
+
+    ca, cb = classify(a), classify(b)
+    ok_p = opsym == want
+    detail = "op=%s expected=%s lhs=%s rhs=%s" % (opsym, want, show(a, ctx) if a else None, show(b, ctx) if b else None)
+    # which objects do the operands come from?
+    target_owner = _storage_base(e.target)
+    init_alias = None
+    if target_owner[0] == "var":
+        bnd = ctx.binds.get(target_owner[1])
+        if bnd is not None and bnd.init is not None:
+            it = _storage_base(ctx.term(bnd.init))
+            init_alias = it
+    def owner_is(c, p):
+        if c is None or c[0] != "elem":
+            return False
+        o = c[1]
+        return o == p or (o == target_owner and init_alias == p)
+    scalar_side = fn["impl_self"] in ("f64",)  # f64 * container
+    if want == "neg":
+        ok_p = ok_p and owner_is(ca, selfP)
+    elif scalar_side:
+        # commutative scalar product: one operand is the container element, the other the scalar self
+        ok_p = ok_p and want == "*" and ((owner_is(ca, P(1)) and cb == ("scalar", P(0))) or (owner_is(cb, P(1)) and ca == ("scalar", P(0))))
+    else:
+        lhs_ok = owner_is(ca, selfP) or (e.kind == "upd" and _storage_base(e.target) == selfP)
+        rhs_ok = cb is not None and ((cb[0] == "elem" and cb[1] == rhsP) or (cb[0] == "scalar" and cb[1] == rhsP))
+        ok_p = ok_p and lhs_ok and rhs_ok
+    rep.add("%s-polarity/%s" % (key, path), rP, ok_p, e.node, detail)
+    # ---- co-indexing
+    idxs = []
+    if e.kind in ("set", "upd"):
+        idxs.append(e.index)
+    for c in (ca, cb):
+        if c is not None and c[0] == "elem":
+            idxs.append(c[2])
+    ok_x = len(set(idxs)) == 1 if idxs else False
+    if e.kind == "push":
+        # the implicit target index is the iteration count of the single enclosing 0..n loop: operands must use its variable
+        lv = list(ranges.keys())
+        ok_x = ok_x and len(lv) == 1 and idxs[0] == lv[0]
+    rep.add("%s-coindex/%s" % (key, path), rX, ok_x, e.node, "indices: %s" % [show(i, ctx) for i in idxs])
+    # ---- full range
+    ok_r = True
+    det = []
+    if e.kind == "push":
+        # result starts empty; one push per iteration of 0..size(self-container)
+        src = P(1) if scalar_side else selfP
+        for vv, (lo, hi, rev) in ranges.items():
+            good = lo == num(0) and (hi == SIZE(src) or hi == LEN(src))
+            ok_r = ok_r and good
+            det.append("%s in %s..%s" % (show(vv, ctx), show(lo, ctx), show(hi, ctx)))
+        ok_r = ok_r and len(ranges) == 1
+        tb = ctx.binds.get(target_owner[1]) if target_owner[0] == "var" else None
+        fresh = tb is not None and tb.init is not None and ctx.term(tb.init)[0] == "call" and str(ctx.term(tb.init)[1]).endswith("::new") and len(ctx.term(tb.init)) == 2
+        ok_r = ok_r and fresh
+        det.append("target starts empty: %s" % fresh)
+    else:
+        idx = e.index
+        comps = list(idx[1:]) if idx[0] == "tup" else [idx]
+        tn = e.tnode
+        tty = adt_of(ty_of(strip(deref(tn))))
+        if tty in DIM_FAMILIES and len(comps) == 2:
+            dims = [("field", e.target, d) for d in DIM_FAMILIES[tty]]
+        elif tty == "vector::Vector":
+            dims = [SIZE(e.target)]
+        else:
+            dims = [LEN(e.target)]
+        if len(comps) != len(dims):
+            ok_r = False
+        for c, D in zip(comps, dims):
+            r = ranges.get(c)
+            if r is None:
+                ok_r = False
+                det.append("%s is not a loop variable" % show(c, ctx))
+                continue
+            lo, hi, rev = r
+            good = lo == num(0) and same_dim(pdb, ctx, e.node, hi, D)
+            ok_r = ok_r and good
+            det.append("%s in %s..%s (dim %s)" % (show(c, ctx), show(lo, ctx), show(hi, ctx), show(D, ctx)))
+    rep.add("%s-fullrange/%s" % (key, path), rR, ok_r, e.node, "; ".join(det))
+    # ---- shape of a fresh result: same dims as the container operand
+    if e.kind == "set" and target_owner[0] == "var":
+        src = P(1) if scalar_side else selfP
+        tty = adt_of(ty_of(strip(deref(e.tnode))))
+        ok_s = True
+        det = []
+        if tty in DIM_FAMILIES:
+            for d in DIM_FAMILIES[tty]:
+                g = same_dim(pdb, ctx, e.node, ("field", target_owner, d), ("field", src, d))
+                ok_s = ok_s and g
+                det.append("%s=%s" % (d, g))
+        elif tty == "vector::Vector" or True:
+            g = same_dim(pdb, ctx, e.node, SIZE(target_owner), SIZE(src)) or same_dim(pdb, ctx, e.node, LEN(target_owner), LEN(("field", src, "vec")))
+            ok_s = g
+            det.append("len=%s" % g)
+        rep.add("%s-shape/%s" % (key, path), "the fresh result has the dimensions of the container operand", ok_s, e.node, " ".join(det))
